@@ -1,6 +1,7 @@
 package main
 
 import (
+	"regexp"
 	"fmt"
 	"go/types"
 	"strings"
@@ -193,6 +194,14 @@ func baseIntrinsics() map[string]intrinsic {
 		}
 		r := st.heapGet(p.obj).(*RegexObj)
 		s := args[1].(StrVal)
+		if cs, ok := s.concrete(); ok {
+			// a fully concrete input (any bytes, non-ASCII included) is decided by the real matcher
+			re, err := regexp.Compile(r.pattern)
+			if err != nil {
+				panic(unsupported{"regexp: pattern accepted by regexp/syntax but not by regexp.Compile"})
+			}
+			return mkBool(re.MatchString(cs)), true
+		}
 		if r.consumesNonASCII() {
 			for _, b := range s.b {
 				if !st.decide(cmp("bvult", b, mkBV(8, 0x80))) {
